@@ -27,7 +27,8 @@ def run_one(prop, entry):
                            stderr=subprocess.STDOUT, text=True)
         if p.returncode != 0:
             return {'status': 'patch-failed', 'detail': p.stdout[-400:]}
-        env = dict(os.environ, RXSCI_REPO=d, VERIF_SELFTEST='1')
+        env = dict(os.environ, RXSCI_REPO=d, VERIF_SELFTEST='1',
+                   VERIF_EVIDENCE_DIR=os.path.join(d, 'evidence'), VERIF_REPLAY_DIR=os.path.join(d, 'replays'))
         outcomes = {}
         for chk in entry.get('checks', [prop]):
             t0 = time.time()
@@ -60,26 +61,16 @@ def main():
         for entry in json.load(open(idx)):
             jobs.append((prop, entry))
     import concurrent.futures as cf
-    # the evidence files are rewritten by the checks: save and restore them
     ev_dir = os.path.join(VERIF, 'evidence')
-    saved = tempfile.mkdtemp(prefix='rxsci-verif.ev.')
-    for f in os.listdir(ev_dir):
-        shutil.copy(os.path.join(ev_dir, f), saved)
-    try:
-        with cf.ThreadPoolExecutor(max_workers=int(os.environ.get('SELFTEST_JOBS', '3'))) as ex:
-            futs = [(prop, entry, ex.submit(run_one, prop, entry)) for prop, entry in jobs]
-            for prop, entry, fu in futs:
-                r = fu.result()
-                r.update({'property': prop, 'patch': entry['patch'], 'expect': entry['expect'],
-                          'what': entry.get('what', '')})
-                results.append(r)
-                print('%-12s %-5s %-7s %-40s %s' % (r['status'], prop, entry['expect'],
-                                                    entry['patch'], entry.get('what', '')[:60]), flush=True)
-    finally:
-        for f in os.listdir(saved):
-            shutil.copy(os.path.join(saved, f), ev_dir)
-        shutil.rmtree(saved, ignore_errors=True)
-        shutil.rmtree(os.path.join(VERIF, 'replays'), ignore_errors=True)
+    with cf.ThreadPoolExecutor(max_workers=int(os.environ.get('SELFTEST_JOBS', '3'))) as ex:
+        futs = [(prop, entry, ex.submit(run_one, prop, entry)) for prop, entry in jobs]
+        for prop, entry, fu in futs:
+            r = fu.result()
+            r.update({'property': prop, 'patch': entry['patch'], 'expect': entry['expect'],
+                      'what': entry.get('what', '')})
+            results.append(r)
+            print('%-12s %-5s %-7s %-40s %s' % (r['status'], prop, entry['expect'],
+                                                entry['patch'], entry.get('what', '')[:60]), flush=True)
     summary = {'detect_ok': sum(1 for r in results if r['expect'] == 'detect' and r['status'] == 'ok'),
                'missed': sum(1 for r in results if r['status'] == 'MISSED'),
                'benign_ok': sum(1 for r in results if r['expect'] == 'benign' and r['status'] == 'ok'),
